@@ -14,6 +14,8 @@ LEVEL_NOTE = "necessary conditions only"
 def run(ctx):
     leaks.K1(ctx)
     leaks.K2(ctx)
+    leaks.K2b(ctx)
+    leaks.K6(ctx)
     leaks.K3(ctx)
     leaks.K4_refcnt(ctx)
     leaks.K4_alloc(ctx)
